@@ -143,6 +143,10 @@ func runC03(c *core.Ctx) *core.Violation {
 
 	// ---- the source stream and its pacing
 	so := StreamOpts{MaxCmds: 25, DBs: 3, StartDB: startDB}
+	if len(f.DBWhite)+len(f.DBBlack) > 0 && f.TargetDB == -1 && startDB <= 2 && t.Choose(2) == 1 {
+		// two-digit databases whose number starts with a listed one (db filters name databases exactly)
+		so.DBMenu = []int{0, 1, 2, 10, 12, 15, 11, 2}
+	}
 	if c.Thorough() {
 		so.MaxCmds = 60
 	}
